@@ -20,6 +20,7 @@ import FV.Model.Registry
 import FV.Proofs.Registry
 import FV.Generated.Params
 import FV.Generated.Locks
+import FV.Proofs.Context
 import FV.Proofs.Locks
 
 namespace FV.C13
@@ -120,5 +121,33 @@ theorem c13_no_lifecycle_lock_on_any_call_path {f h : Nat} (hf : f ∈ FV.Genera
     (hlt : m < FV.Generated.Locks.mutexTags.length) :
     [2].contains (FV.Generated.Locks.mutexTags.getD m 0) = false :=
   FV.Locks.rootsAvoid_sound _ _ _ _ c13_calls_take_no_lifecycle_lock hf hr hh hm hlt
+
+/-- **Every positive timeout is a deadline**: for every positive `time.Duration` (int64 nanoseconds), what
+`SetTimeout` writes into the `_timeout` header is read back by `Timeout()` as a POSITIVE duration — so
+`ToContext`, which installs a deadline exactly when `Timeout() > 0`, never turns a positive timeout into "no
+deadline" (before fix "SetTimeout rounds a positive sub-millisecond timeout up" a timeout below 1 ms was
+written as 0 and an adapter Request against a silent peer never returned: `c13_tiny_timeout_unfixed_counterexample`). -/
+theorem c13_positive_timeout_is_a_deadline (ns : Int) (h : 0 < ns) (hhi : ns < 9223372036854775808) :
+    0 < FV.decodeTimeout (FV.encodeTimeout ns) := by
+  unfold FV.encodeTimeout
+  split
+  · rw [FV.decodeTimeout_formatInt 1 (by decide) (by decide)]; decide
+  · rename_i hn
+    have hne : Int.tdiv ns FV.nsPerMs ≠ 0 := fun e => hn ⟨h, e⟩
+    have hpos : 0 ≤ Int.tdiv ns FV.nsPerMs := Int.tdiv_nonneg (by omega) (by decide)
+    have hle : Int.tdiv ns FV.nsPerMs * 1000000 ≤ ns := by
+      have h1 := Int.tdiv_mul_le ns (b := FV.nsPerMs) (by decide)
+      simp only [FV.nsPerMs] at h1 ⊢
+      have h2 : (0 : Int) ≤ ns := by omega
+      simp only [h2, if_true] at h1
+      omega
+    rw [FV.decodeTimeout_formatInt _ (by omega) (by omega)]
+    omega
+
+/-- The truncating encoding the code had before the fix: 500 µs was written as "0", which `Timeout()`
+reads as 0 — no deadline. -/
+theorem c13_tiny_timeout_unfixed_counterexample :
+    FV.decodeTimeout (FV.formatInt (Int.tdiv 500000 FV.nsPerMs)) = 0 := by
+  rw [show Int.tdiv 500000 FV.nsPerMs = 0 by decide, FV.decodeTimeout_formatInt 0 (by decide) (by decide)]; rfl
 
 end FV.C13
